@@ -5,30 +5,61 @@ package poll
 // Contracts for the verif engine (/verif). Comment-only: no code is compiled
 // from this file with or without the tag.
 
+// A message is handed to at most one connection: the one get returns for the decoded group and id. It is
+// reported delivered exactly when that connection's channel accepted it; a notification is only delivered
+// to the connection with the addressed id; Done is called exactly once on every path.
 //@ func (*PollWorker).Process
 //@ props C18
 //@ nopanic C13
+//@ use-contracts get
 //@ funcvalue ^mesg\.Done$ records done
-//@ elem conns assume elem != nil && elem.ch != nil && !closed(elem.ch)
 //@ requires w != nil && mesg != nil && mesg.Done != nil && w.connections.conns != nil
-//@ ensures calls("done") == 1
+//@ ensures calls("done") == 1 && calls("get") <= 1
+//@ ensures callarg("done", 0, 0) ==> calls("get") == 1 && callres("get", 0, 1) && sends(callres("get", 0, 0).ch) == 1
+//@ ensures !callarg("done", 0, 0) && calls("get") == 1 && callres("get", 0, 1) ==> sends(callres("get", 0, 0).ch) == 0
+//@ ensures callarg("done", 0, 0) && mesg.Type == message.Notify ==> callres("get", 0, 0).id == callarg("get", 0, 2)
+//@ ensures callarg("done", 0, 0) ==> callarg("done", 0, 1) == nil
+//@ ensures !callarg("done", 0, 0) ==> callarg("done", 0, 1) != nil
 
+// get prefers the connection with the addressed id and otherwise returns any connection of the addressed
+// group; it never returns a connection of another group, and only reports none when the group is empty.
+// K is an arbitrary index: what is proved for it holds for every registered connection of the group.
 //@ func (*connections).get
 //@ props C18
 //@ nopanic C13
-//@ elem conns assume elem != nil && elem.ch != nil && !closed(elem.ch)
+//@ records get
+//@ ghost K int
+//@ elem conns assume elem != nil && elem.ch != nil && !closed(elem.ch) && elem.group == group
 //@ requires cs != nil && cs.conns != nil
-//@ ensures result1 ==> result0 != nil && result0.ch != nil && !closed(result0.ch)
+//@ loop 1 invariant 0 <= K && K <= rangeindex1 ==> cs.conns[group][K].id != id
+//@ ensures result1 ==> result0 != nil && result0.ch != nil && !closed(result0.ch) && result0.group == group
 //@ ensures !result1 ==> result0 == nil
+//@ ensures result1 == (len(cs.conns[group]) > 0)
+//@ ensures result1 && id != "" && result0.id != id && 0 <= K && K < len(cs.conns[group]) ==> cs.conns[group][K].id != id
 
+// add always displaces a registered connection with the same id first (also when the transport is at its
+// limit: a reconnect replaces the older connection); then the new connection is either closed at once
+// (limit reached) or registered under its own group and counted.
 //@ func (*connections).add
 //@ props C18
 //@ nopanic C13
 //@ elem conns assume elem != nil && elem.ch != nil && !closed(elem.ch) && elem.ch != conn.ch
 //@ requires cs != nil && cs.conns != nil && cs.cnt != nil && conn != nil && conn.ch != nil && !closed(conn.ch)
+//@ requires cs.len >= 0 && cs.len <= 1000000000 && len(cs.conns[conn.group]) >= 0 && cs.max >= 0
+//@ ensures calls("rmv") == 1 && callarg("rmv", 0, 1) == conn && !callarg("rmv", 0, 2)
+//@ site append connection assert elem == conn && !closed(conn.ch) && cs.len < cs.max
+//@ ensures closed(conn.ch) ==> cs.len >= cs.max
+//@ ensures !closed(conn.ch) ==> cs.len <= cs.max && len(cs.conns[conn.group]) >= 1
 
+// rmv removes at most one connection (the one with the given id; with match only if it is the very same
+// connection), closes its channel and keeps the counters in step; nothing else leaves the registry.
 //@ func (*connections).rmv
 //@ props C18
 //@ nopanic C13
-//@ elem conns assume elem != nil && elem.ch != nil && !closed(elem.ch) && elem.ch != conn.ch
-//@ requires cs != nil && cs.conns != nil && cs.cnt != nil && conn != nil && conn.ch != nil && !closed(conn.ch)
+//@ records rmv
+//@ elem conns assume elem != nil && elem.ch != nil && !closed(elem.ch)
+//@ requires cs != nil && cs.conns != nil && cs.cnt != nil && conn != nil && conn.ch != nil
+//@ requires cs.len >= 0 && cs.len <= 1000000000 && len(cs.conns[conn.group]) >= 0
+//@ ensures len(cs.conns[conn.group]) == old(len(cs.conns[conn.group])) || len(cs.conns[conn.group]) == old(len(cs.conns[conn.group])) - 1
+//@ ensures len(cs.conns[conn.group]) == old(len(cs.conns[conn.group])) ==> cs.len == old(cs.len)
+//@ ensures len(cs.conns[conn.group]) == old(len(cs.conns[conn.group])) - 1 ==> cs.len == old(cs.len) - 1
